@@ -131,8 +131,8 @@ Definition blen (b : builder) : Z :=
   | BString _ offs _ => glen offs - 1
   | BOption idx _ => glen idx
   | BList offs _ _ => glen offs - 1
-  | BRecord _ _ _ _ len _ _ _ => len
-  | BTuple _ len _ _ => len
+  | BRecord _ _ _ _ len _ _ _ => if len =? -1 then 0 else len     (* -1 = fresh(), internal only *)
+  | BTuple _ len _ _ => if len =? -1 then 0 else len
   | BUnion tags _ _ _ => glen tags
   end.
 
@@ -190,6 +190,17 @@ Section Lists.
     end.
 End Lists.
 
+Section MapMs.
+  Context {A B : Type}.
+  Variable f : A -> res B.
+  (* Base.mapM with [f] outside the fixpoint, so that it can be used on the sub-builders of a node *)
+  Fixpoint mapMs (l : list A) : res (list B) :=
+    match l with
+    | [] => Ok []
+    | x :: xs => do y <- f x; do ys <- mapMs xs; Ok (y :: ys)
+    end.
+End MapMs.
+
 Definition nth_z {A} (l : list A) (i : Z) : option A :=
   if i <? 0 then None else nth_error l (Z.to_nat i).
 
@@ -209,8 +220,8 @@ Definition fresh_after (o : opts) (c : cmd) : res builder :=
       string_after o e offs0 cont s
   | CBeginList => do offs <- gb_empty o; do offs0 <- gb_append o offs 0; Ok (BList offs0 (BUnknown 0) true)
   | CBeginTuple n =>
-      (* numfields < 0: TupleBuilder::begintuple and UnionBuilder::begintuple call each other for ever *)
-      if n <? 0 then Err EFuel
+      (* TupleBuilder::fromempty(); begintuple(n) throws for numfields < 0 *)
+      if n <? 0 then Err EValue
       else Ok (BTuple (repeat (BUnknown 0) (Z.to_nat n)) 0 true (-1))
   | CBeginRecord nm =>
       Ok (BRecord [] [] (match nm with Some s => s | None => [] end)
@@ -336,11 +347,13 @@ Fixpoint step (b : builder) (c : cmd) {struct b} : sres :=
       | CInt x | CReal x => withgb (gb_append o g x) b (fun g' => SOk (BFloat g') None)
       | _ => match kind_of c with KEnd | KInner => SErr EValue b | _ => union_wrap o b c end
       end
-  (* ---------------- StringBuilder (the encoding argument of string() is ignored by the C++) ---------------- *)
+  (* ---------------- StringBuilder ---------------- *)
   | BString e offs cont =>
       match c with
       | CNull => option_null o b
-      | CStr _ s => withb (string_after o e offs cont s) b (fun b' => SOk b' None)
+      | CStr e' s =>
+          if Bool.eqb e e' then withb (string_after o e offs cont s) b (fun b' => SOk b' None)
+          else union_wrap o b c
       | _ => match kind_of c with KEnd | KInner => SErr EValue b | _ => union_wrap o b c end
       end
   (* ---------------- OptionBuilder ---------------- *)
@@ -474,6 +487,7 @@ Fixpoint step (b : builder) (c : cmd) {struct b} : sres :=
         end in
       match c with
       | CBeginTuple n =>
+          if n <? 0 then SErr EValue b else
           let '(cs1, len1) :=
             if len =? -1 then (cs ++ repeat (BUnknown 0) (Z.to_nat n), 0) else (cs, len) in
           let self1 := BTuple cs1 len1 begun ni in
@@ -488,13 +502,13 @@ Fixpoint step (b : builder) (c : cmd) {struct b} : sres :=
                end
       | CIndex i =>
           if negb begun then SErr EValue b
-          else if zlen cs <=? i then SErr EValue b      (* tested before looking at the active child *)
           else
             let here := if ni =? -1 then Some true
                         else match nth_z cs ni with Some x => Some (negb (active x)) | None => None end in
             match here with
             | None => SErr EOob b
-            | Some true => SOk (BTuple cs len begun i) None      (* negative i is stored as is *)
+            | Some true =>
+                if (i <? 0) || (zlen cs <=? i) then SErr EValue b else SOk (BTuple cs len begun i) None
             | Some false => child dr true
             end
       | CEndTuple =>
@@ -589,7 +603,8 @@ Fixpoint step (b : builder) (c : cmd) {struct b} : sres :=
                 | _ =>
                     match c with
                     | CBeginTuple n =>
-                        if n <? 0 then SErr EFuel b else
+                        (* the new TupleBuilder is pushed before its begintuple(n) throws *)
+                        if n <? 0 then SErr EValue (BUnion tags idx (cs ++ [BTuple [] (-1) false (-1)]) cur) else
                         withb (fresh_after o c) b (fun nb => after (length cs) 0 (cs ++ [nb]))
                     | _ => withb (fresh_after o c) b (fun nb => after (length cs) 0 (cs ++ [nb]))
                     end
@@ -613,12 +628,10 @@ Fixpoint clear (b : builder) : res builder :=
   | BString e offs cont => do offs' <- offsets0; do cont' <- gb_clear o cont; Ok (BString e offs' cont')
   | BOption idx ct => do idx' <- gb_clear o idx; do ct' <- clear ct; Ok (BOption idx' ct')
   | BList offs ct begun => do offs' <- offsets0; do ct' <- clear ct; Ok (BList offs' ct' begun)   (* begun_ is kept *)
-  | BRecord cs _ _ _ _ _ _ _ =>
-      (* contents_ keeps its (cleared) elements while keys_ is emptied *)
-      do cs' <- mapM clear cs; Ok (BRecord cs' [] [] true (-1) false (-1) 0)
-  | BTuple cs _ _ _ => do cs' <- mapM clear cs; Ok (BTuple cs' (-1) false (-1))
+  | BRecord _ _ _ _ _ _ _ _ => Ok (BRecord [] [] [] true (-1) false (-1) 0)
+  | BTuple _ _ _ _ => Ok (BTuple [] (-1) false (-1))
   | BUnion tags idx cs cur =>
-      do tags' <- gb_clear o tags; do idx' <- gb_clear o idx; do cs' <- mapM clear cs;
+      do tags' <- gb_clear o tags; do idx' <- gb_clear o idx; do cs' <- mapMs clear cs;
       Ok (BUnion tags' idx' cs' cur)                                                              (* current_ is kept *)
   end.
 End Clear.
@@ -640,16 +653,16 @@ Fixpoint snapshot (b : builder) : res content :=
   | BList offs ct _ => do c <- snapshot ct; Ok (ListOffset I64 (gb_list offs) c)
   | BRecord cs keys rn nullp len _ _ _ =>
       if len =? -1 then Ok Empty else
-      do snaps <- mapM snapshot cs;
+      do snaps <- mapMs snapshot cs;
       (* recordlookup->push_back(keys_[i]) for i < contents_.size(): reading past keys_ is UB *)
       if (length keys <? length cs)%nat then Err EOob else
       let r := Record snaps (Some (firstn (length cs) keys)) len in
       Ok (if nullp then r else Par None (Some rn) r)
   | BTuple cs len _ _ =>
       if len =? -1 then Ok Empty else
-      do snaps <- mapM snapshot cs; Ok (Record snaps None len)
+      do snaps <- mapMs snapshot cs; Ok (Record snaps None len)
   | BUnion tags idx cs _ =>
-      do snaps <- mapM snapshot cs; Ok (Union I64 (gb_list tags) (gb_list idx) snaps)
+      do snaps <- mapMs snapshot cs; Ok (Union I64 (gb_list tags) (gb_list idx) snaps)
   end.
 
 (* ------------------------------------------------------------------ ArrayBuilder *)
